@@ -301,6 +301,7 @@ type prog struct {
 	lines []string
 	exp   []string
 	noSet bool // useDeep: do not change any-objects
+	loops int  // useDeep: loop variables used so far
 }
 
 func (p *prog) stmt(f string, a ...any)   { p.lines = append(p.lines, fmt.Sprintf(f, a...)) }
